@@ -26,6 +26,7 @@ import Hdl21Model.Lemmas.PortRefs
 import Hdl21Model.Props.C03
 import Hdl21Model.Lemmas.Rename
 import Hdl21Model.Lemmas.Nets
+import Hdl21Model.Lemmas.InstBundle
 namespace Hdl21.Props.C01
 open Hdl21 Hdl21.Pkg
 
@@ -254,5 +255,55 @@ theorem solver_joinAll_sound_and_complete (l : List Atom) (cs : List (List Atom)
 
 example : (joinAll [[⟨"s:a", [], 0⟩], [⟨"s:b", [], 0⟩, ⟨"s:c", [], 0⟩]] [⟨"s:a", [], 0⟩, ⟨"s:c", [], 0⟩]).length = 1 := by decide
 end Oracle
+
+/-! ## instance bundles (`h.Pair` and other `InstanceBundleType`s) -/
+section InstBundles
+open Hdl21.InstBundle
+
+/-- **What `InstBundleElabPass` makes of an instance bundle**: one instance per member of the bundle type, in member order, each
+    with exactly the instance bundle's ports in their order; on every port the member's instance gets what `elemConn` says —
+    its own member of a bundle instance of the very type, the field of its name of an anonymous bundle, a scalar connection
+    as it is (the same for every member), a no-connect left to be resolved per instance. -/
+theorem instbundle_expansion (ty : String) (nested : Bool) (ms : List String) (conns : List (String × IBConn))
+    (r : List (String × List (String × ElemConn))) (h : expand ty nested ms conns = .ok r) (hnd : (conns.map (·.1)).Nodup) :
+    nested = false ∧ r.map (·.1) = ms ∧
+    ∀ m es, (m, es) ∈ r → es.map (·.1) = conns.map (·.1) ∧
+      ∀ p c e, (p, c) ∈ conns → (p, e) ∈ es → elemConn ty ms m c = .ok e := by
+  unfold expand at h
+  cases nested with
+  | true => simp at h
+  | false =>
+    simp only [Bool.false_eq_true, ↓reduceIte] at h
+    obtain ⟨i1, i2⟩ := expandMembers_spec ty ms conns ms r h
+    refine ⟨rfl, i1, fun m es hm => ?_⟩
+    obtain ⟨j1, j2⟩ := elemConns_spec ty ms m conns es (i2 m es hm)
+    exact ⟨j1, fun p c e hc he => j2 p c e hc he hnd⟩
+
+/-- the four kinds of connection, spelled out -/
+theorem instbundle_connection_kinds (ty : String) (ms : List String) (m : String) :
+    (∀ c, elemConn ty ms m (.scalar c) = .ok (.conn c)) ∧
+    (∀ b, elemConn ty ms m (.bundle ty b) = .ok (.member b m)) ∧
+    (∀ fields c, (fields.any fun f => !ms.contains f.1) = false → lookupF m fields = some c →
+        elemConn ty ms m (.anon fields) = .ok (.conn c)) ∧
+    elemConn ty ms m .noconn = .ok .noconn := by
+  refine ⟨fun _ => rfl, fun b => by simp [elemConn], fun fields c h1 h2 => ?_, rfl⟩
+  show (if (fields.any fun f => !ms.contains f.1) = true then _ else _) = _
+  rw [if_neg (by rw [h1]; exact Bool.false_ne_true), h2]
+
+/-- … and what it refuses: nested bundle types, a bundle instance of another type, an anonymous bundle with a field the
+    bundle type does not have (C02). -/
+theorem instbundle_refusals (ty : String) (ms : List String) (conns : List (String × IBConn)) :
+    (∃ e, expand ty true ms conns = .error e) ∧
+    (∀ m ty' b, ty' ≠ ty → ∃ e, elemConn ty ms m (.bundle ty' b) = .error e) ∧
+    (∀ m fields, (fields.any fun f => !ms.contains f.1) = true → ∃ e, elemConn ty ms m (.anon fields) = .error e) := by
+  refine ⟨⟨"Invalid Instance Bundle with nested Bundles", by simp [expand]⟩,
+    fun m ty' b hne => ⟨"Invalid Instance Bundle connection", by simp [elemConn, hne]⟩,
+    fun m fields h => ⟨"has no members", ?_⟩⟩
+  show (if (fields.any fun f => !ms.contains f.1) = true then _ else _) = _
+  rw [if_pos h]
+
+example : (expand "Diff" false ["p", "n"] [("a", .anon [("n", .sig "y" 1), ("p", .sig "x" 1)]), ("b", .scalar (.sig "v" 1))]).toOption.map
+    (fun r => r.map fun me => (me.1, me.2.map (·.1))) = some [("p", ["a", "b"]), ("n", ["a", "b"])] := by decide
+end InstBundles
 
 end Hdl21.Props.C01
